@@ -150,6 +150,7 @@ type Interp struct {
 	observed   []string
 	concPos    int
 	fnSeen     map[*ssa.Function]bool
+	logs       []*logRec
 }
 
 type pathAbort struct {
